@@ -26,19 +26,19 @@ Definition oprf_weierstrass (C : wcurve) (h : HashOps) (id : string) : OprfOps w
   o_id := bytes_of_string id;
 |}.
 
-Definition oprf_ristretto (h : HashOps) : OprfOps epoint Z := {|
+Definition oprf_ristretto (h : HashOps) : OprfOps bytes Z := {|
   o_Noe := 32%nat;
   o_Nok := 32%nat;
-  o_ser_e := r_ser;
-  o_deser_e := r_deser_gen false;
+  o_ser_e := fun e => e;
+  o_deser_e := rb_deser;
   o_ser_s := r_ser_scalar;
   o_deser_s := r_deser_scalar;
-  o_mul := r_mul;
+  o_mul := rb_mul;
   o_inv := r_inv_scalar;
-  o_eqb := r_eqb;
-  o_identity := e_identity;
+  o_eqb := bytes_eqb;
+  o_identity := rb_identity;
   o_is_zero := r_is_zero;
-  o_h2g := r_hash_to_curve h;
+  o_h2g := rb_hash_to_curve h;
   o_h2s := r_hash_to_scalar h;
   o_random_scalar := r_random_scalar;
   o_id := bytes_of_string "ristretto255-SHA512";
@@ -70,15 +70,15 @@ Definition ke_weierstrass (C : wcurve) : KeOps wpoint Z := {|
 |}.
 
 (* ristretto255.rs: hash_to_scalar may return zero; the counter loop retries *)
-Definition ke_ristretto : KeOps epoint Z := {|
+Definition ke_ristretto : KeOps bytes Z := {|
   k_Npk := 32%nat;
   k_Nsk := 32%nat;
-  k_ser_pk := r_ser;
-  k_deser_pk := r_deser_gen false;
+  k_ser_pk := fun p => p;
+  k_deser_pk := rb_deser;
   k_ser_sk := r_ser_scalar;
   k_deser_sk := r_deser_scalar;
-  k_pub := fun sk => r_mul r_base sk;
-  k_dh := fun pk sk => r_ser (r_mul pk sk);
+  k_pub := fun sk => r_ser (r_mul r_base sk);
+  k_dh := fun pk sk => rb_mul pk sk;
   k_derive := fun h oprf_id seed =>
     derive_auth_keypair_default
       (fun h' m dst => Some (r_hash_to_scalar h' m dst)) r_is_zero h oprf_id seed;
